@@ -992,12 +992,16 @@ func opReferenceChangeJournal(ctx context.Context, pc *uint64, interpreter *EVMI
 		stateBytes = unmask(rawState[:], length)
 		stateBytes = stateBytes[:length]
 	} else {
-		referenceSlot := new(uint256.Int).SetBytes(keccak(interpreter, storageSlot.Bytes()))
+		// the data lives at keccak256(slot as 32 bytes), keccak256(...)+1, ...
+		paddedSlot := storageSlot.Bytes32()
+		referenceSlot := new(uint256.Int).SetBytes(keccak(interpreter, paddedSlot[:]))
 		for i := uint64(0); i < u64Ceiling(length, 32); i++ {
-			offset := referenceSlot.Add(referenceSlot, one).Bytes32()
+			offset := referenceSlot.Bytes32()
 			currentRawState := interpreter.evm.StateDB.GetState(contract, offset)
 			stateBytes = append(stateBytes, currentRawState[:]...)
+			referenceSlot.Add(referenceSlot, one)
 		}
+		stateBytes = stateBytes[:length]
 	}
 
 	err = interpreter.tracer.SaveStateChange(contract, &storageSlot, nil, typeId.Bytes32(), stateBytes)
